@@ -1,7 +1,7 @@
 (* C19 — property theorems only.  Each is closed by [exact] of a lemma from
    Proofs.v and followed by Print Assumptions. *)
 From Coq Require Import ZArith List Bool QArith Qminmax.
-From Verif Require Import C19.Model C19.Proofs C19.ParProofs.
+From Verif Require Import C19.Model C19.Proofs C19.ParProofs C19.Names.
 Import ListNotations.
 
 (* A stage with a checkpoint processes a signal only if that checkpoint
@@ -110,3 +110,20 @@ Theorem c19_parallel_outputs :
     exists outs, p_outputs r = Some outs /\ map Some outs = map (fun s => s_proc s x0) stages.
 Proof. exact par_outputs_proof. Qed.
 Print Assumptions c19_parallel_outputs.
+
+(* Stage names are the caller's: empty, falsy-looking and repeated names are legal and play no part in a run.  The
+   executable the correspondence check evaluates identifies stages by name class; for distinct names that is the
+   observation by stage index, about which the theorems above speak. *)
+Theorem c19_distinct_names_observation :
+  forall (c : case) (n : nat), run_case_named (c, ident_cls n) = run_case c.
+Proof. exact names_distinct_observation_proof. Qed.
+Print Assumptions c19_distinct_names_observation.
+
+(* whatever the names (repeated, empty), they only relabel rows: same number of rows, same verdict row *)
+Theorem c19_names_only_relabel :
+  forall (c : case) (cls : list Z),
+    length (run_case_named (c, cls)) = length (run_case c)
+    /\ (forall halt maxamp stages x, c = (true, halt, maxamp, stages, x) ->
+          hd [] (run_case_named (c, cls)) = hd [] (run_case c)).
+Proof. exact names_only_relabel_proof. Qed.
+Print Assumptions c19_names_only_relabel.
